@@ -337,6 +337,17 @@ def run_layout(sh, n):
                     return ('tok', 'a-b')
                 return replace_children(e, [tk(c) for c in children(e)])
             rules = [(nm, tk(x)) for nm, x in rules]
+        opener = cfg['comments'] and rnd.random() < 0.4
+        if opener:
+            # a token that is a prefix of the comment opener: '(' with (* ... *) comments.  Skipping comes first: a comment written
+            # right after the previous lexeme is skipped before '(' is tried, and '(' itself is never the start of a comment here
+            victim = rnd.choice([',', '+', ';', 'c'])
+
+            def op(e):
+                if e[0] == 'tok' and e[1] == victim:
+                    return ('tok', '(')
+                return replace_children(e, [op(c) for c in children(e)])
+            rules = [(nm, op(x)) for nm, x in rules]
         directives, settings, refkw = config_texts(cfg)
         upper_start = rnd.random() < 0.25
         if upper_start:
@@ -366,6 +377,8 @@ def run_layout(sh, n):
                 cls.append('adversarial-judged')
             if upper_start:
                 cls.append('upper-case start rule')
+            if opener and any(l.text == '(' for l in lx):
+                cls.append('token that is a prefix of the comment opener')
             sh.case((gtext, str(sorted(settings.items())), texts['base'], texts['varied']), ngaps >= 2 or bool(info.get('adv_judged')), cls,
                     sample=dict(grammar=grammar_text(rules, directives), settings=settings, layouts=texts))
             if d is not None:
